@@ -3,6 +3,7 @@
 //!      [--threads N] [--sub NAME] [--shard I/N] [--scale-div N] [--miri] [--no-evidence]
 
 #![allow(dead_code)]
+mod text;
 mod checks;
 mod gen;
 mod geom;
